@@ -4,7 +4,6 @@
    every pair of enable / disable overrides over the existing names.  The driver builds the class
    with type(), instantiates it and records what it offers (BuildPhases_Trace, Api_* clauses).  *)
 EXTENDS BuildPhases, TLC, Json, IOUtils, SequencesExt
-StopOnFailure_ == TRUE
 Names == {"x", "y"}
 Desc(nm) == {[name |-> nm, standalone |-> s, impl |-> i, check |-> c] : s \in BOOLEAN, i \in BOOLEAN, c \in {"none", "yes", "no"}}
 Classes == {{}} \cup {{d} : d \in Desc("x")} \cup {{d1, d2} : <<d1, d2>> \in Desc("x") \X Desc("y")}
